@@ -101,6 +101,7 @@ func (e *Engine) setup(fn *ssa.Function, con *Contract, choice []splitChoice) *f
 	vc := &VC{Eng: e, Fn: fn, counts: map[string]int{}, Case: caseName(choice)}
 	x := &Exec{eng: e, vc: vc, heap0: map[string]*Term{}, top0: Var("top0", SInt), callSeqs: map[string]int{}, sentinels: map[string]*Term{}}
 	x.modeBV = con.Mode == "bv"
+	vc.X = x
 	vc.Assume(Ge(x.top0, IntLit(0)))
 	var params []*Val
 	for _, p := range fn.Params {
